@@ -96,6 +96,7 @@ func c17EvalOnce(in c17Input, timeout time.Duration) evalOutcome {
 
 // c17Eval evaluates one query against one content; returns false when the worker must stop (hang).
 func c17Eval(r *vkit.Run, in c17Input) bool {
+	r.Journal("C17", in)
 	o := c17EvalOnce(in, 20*time.Second)
 	r.Eval()
 	if !o.done {
@@ -116,6 +117,9 @@ func c17Eval(r *vkit.Run, in c17Input) bool {
 // c17Query parses text (must not panic); if it parses, evaluates it against every content, instant and range.
 func c17Query(r *vkit.Run, text string) bool {
 	r.Step(1)
+	if len(text) > 40 {
+		r.Journal("C17", c17Input{Query: text, Content: -1})
+	}
 	_, err, pan := parseSafe(text)
 	if pan != "" {
 		r.Eval()
